@@ -75,6 +75,7 @@ struct App {
     PA_ARR(char, s_two, 2);
     PA_ARR(char, s_eight, 8);
     PA_ARR(char, s_sixteen, 16);
+    PA_ARR(char, s_roomy, 32);     // declared length 16: shorter than the member
     // rArrayI
     PA_ARR(char, aiOne, 1);
     PA_ARR(char, aiTwo, 2);
@@ -162,6 +163,7 @@ const rtosc::Ports App::ports = {
     rString(s_two, 2, "capacity 2"),
     rString(s_eight, 8, "capacity 8"),
     rString(s_sixteen, 16, "capacity 16"),
+    rString(s_roomy, 16, "declared length 16 in a 32-byte member"),
 
     rArrayI(aiOne, 1, "no range"),
     rArrayI(aiTwo, 2, rLinear(0, 127), "midi"),
@@ -312,6 +314,7 @@ inline const std::vector<PortDesc> &describe()
     v.push_back({"/s_two",     K_STRING, ST_STR, "", "", 0, 2, {}, PA_OFF(s_two), "s"});
     v.push_back({"/s_eight",   K_STRING, ST_STR, "", "", 0, 8, {}, PA_OFF(s_eight), "s"});
     v.push_back({"/s_sixteen", K_STRING, ST_STR, "", "", 0, 16, {}, PA_OFF(s_sixteen), "s"});
+    v.push_back({"/s_roomy",   K_STRING, ST_STR, "", "", 0, 16, {}, PA_OFF(s_roomy), "s"});
 
     v.push_back({"/aiOne",   K_ARRAYI, ST_CHAR, "", "", 1, 0, {}, PA_OFF(aiOne), "i"});
     v.push_back({"/aiTwo",   K_ARRAYI, ST_CHAR, "0", "127", 2, 0, {}, PA_OFF(aiTwo), "i"});
@@ -370,8 +373,8 @@ inline void init_app(App &a)
     a.pf_dec = 0.5f; a.pd_frac = 1.125;
     a.t_bool = false; a.t_int = 1;
     a.o_plain = 1; a.o_bound = 1; a.o_sparse = 4; a.o_enum = W_SAW;
-    PA_G(a, s_one); PA_G(a, s_two); PA_G(a, s_eight); PA_G(a, s_sixteen);
-    a.s_one[0] = 0; strcpy(a.s_two, "i"); strcpy(a.s_eight, "init"); strcpy(a.s_sixteen, "initial value");
+    PA_G(a, s_one); PA_G(a, s_two); PA_G(a, s_eight); PA_G(a, s_sixteen); PA_G(a, s_roomy);
+    a.s_one[0] = 0; strcpy(a.s_two, "i"); strcpy(a.s_eight, "init"); strcpy(a.s_sixteen, "initial value"); memset(a.s_roomy, '~', sizeof a.s_roomy); strcpy(a.s_roomy, "roomy");
     PA_G(a, aiOne); PA_G(a, aiTwo); PA_G(a, aiFive); PA_G(a, aiNeg); PA_G(a, aiFrac); PA_G(a, aiMin); PA_G(a, aiMax); PA_G(a, aiInt); PA_G(a, aiDozen);
     a.aiOne[0] = 3;
     for(int i = 0; i < 2; ++i) { a.aiTwo[i] = (char)(30 + i); a.aiFrac[i] = (char)(i + 1); a.aiMax[i] = (char)(-20 + i); }
